@@ -3,6 +3,7 @@ import Setec.Proofs.DB
 import Setec.Proofs.Crypto
 import Setec.Proofs.Base64
 import Setec.Proofs.CacheDoc
+import Setec.Proofs.Wire
 /-!
 # C18 - secret bytes round-trip unchanged end to end, including through the CLI
 
@@ -93,5 +94,17 @@ theorem cache_file_roundtrip (d : Store.Doc) (n : String) :
     (CacheDoc.readDoc (CacheDoc.renderDoc d)).map (fun d' => (d'[n]?).map (·.1.value)) =
       some ((d[n]?).map (·.1.value)) := by
   rw [CacheDoc.readDoc_render]; rfl
+
+/-- on the wire: the body a handler writes for a successful outcome (`Wire.renderRes`, tied byte
+for byte to the real handlers by the `http` family) reads back as that outcome - in particular
+the exact bytes and version number of a value - and the body the client sends for a put
+reads back as the name and the exact bytes -/
+theorem wire_roundtrip (r : DB.Res) (h : Wire.is200 r = true) :
+    Wire.readRes (Wire.endpointOf r) (Wire.renderRes r) = some r :=
+  Wire.readRes_render r h
+
+theorem wire_put_request_roundtrip (name : String) (value : Bytes) :
+    Wire.readPutReq (Wire.renderPutReq name value) = some (name, value) :=
+  Wire.readPutReq_render name value
 
 end Setec.C18
